@@ -83,16 +83,18 @@ func writeEvidence(spec *Spec, tier string, seed int, results []*RunResult, wall
 			"solver_queries":            r.Queries,
 			"solver_seconds_summed":     r.SolverSec,
 			"final_assertion_queries":   r.Final,
-			"cover_points_reached":      covers,
-			"cover_points_required":     r.Spec.Covers,
-			"complete":                  r.Complete,
-			"stop_reason":               r.StopReason,
-			"max_threads":               r.MaxThreads,
-			"findings":                  fsum,
-			"witness_replays_matched":   r.WitnessOK,
-			"witness_replays_bad":       r.WitnessBad,
-			"load_seconds":              r.Load,
-			"explore_seconds":           r.Wall,
+			"final_queries_cross_checked_on_z3_4_8_12": r.CrossChecked,
+			"cross_check_disagreements":                r.CrossMismatch,
+			"cover_points_reached":                     covers,
+			"cover_points_required":                    r.Spec.Covers,
+			"complete":                                 r.Complete,
+			"stop_reason":                              r.StopReason,
+			"max_threads":                              r.MaxThreads,
+			"findings":                                 fsum,
+			"witness_replays_matched":                  r.WitnessOK,
+			"witness_replays_bad":                      r.WitnessBad,
+			"load_seconds":                             r.Load,
+			"explore_seconds":                          r.Wall,
 		})
 		n := 0
 		for _, w := range r.Witnesses {
